@@ -87,7 +87,8 @@ class ProgGen:
         rng = self.rng
         if legs is None:
             legs = self.fresh_legs(rank if rank is not None else rng.randint(1, 4))
-        a = tgen.rand_tensor(rng, self.cfg, self.symname, legs, cplx=self.cplx, n=n)
+        # complex programs mix real and complex operands (dtype promotion in every binary kernel)
+        a = tgen.rand_tensor(rng, self.cfg, self.symname, legs, cplx=self.cplx and rng.random() < 0.7, n=n)
         return self._push({"f": "input", "a": [], "tensor": tgen.to_model(a)}, a, opname="input")
 
     def _push(self, model, real=None, exc=None, oracle=None, opname="", args=(), malformed=False, shadow_results=None):
@@ -312,6 +313,16 @@ class ProgGen:
             elif wl:
                 wl = wl[:-1]; n = None
         try:
+            if not mal and len(wl) >= 2 and rng.random() < 0.35:
+                # the partner arrives with a PENDING transposition: created on permuted legs, lazily permuted back
+                q = list(range(len(wl)))
+                for _ in range(5):
+                    rng.shuffle(q)
+                    if q != sorted(q):
+                        break
+                idx = self.new_input(legs=[wl[k] for k in q], n=n)
+                inv = [q.index(k) for k in range(len(q))]
+                return self._do({"f": "transpose", "a": [idx], "axes": inv}, lambda V: V[idx].transpose(tuple(inv)), None, "transpose_lazy", (idx,))
             return self.new_input(legs=wl, n=n)
         except Exception:
             return None
@@ -356,7 +367,19 @@ class ProgGen:
                 ids.append(self._do({"f": "smul", "a": [idx], "c": [amp, 0]}, lambda V, idx=idx, amp=amp: V[idx] * amp, None, "smul", (idx,)))
         s1 = self._do({"f": "add", "a": [ids[0], ids[1]]}, lambda V: V[ids[0]] + V[ids[1]], None, "add", (ids[0], ids[1]))
         model = {"f": "add", "a": [s1, ids[2]]}
-        return self._do(model, lambda V: self.yastn.add(V[i], V[j], V[k], amplitudes=amps), None, "addmany", (i, j, k))
+
+        def oracle(r):
+            ops = [x, y, z]
+            if not all(isinstance(o, self.yastn.Tensor) for o in ops):
+                return None
+            ls = [o.get_legs(native=True) for o in ops]
+            L = {}
+            for q in range(len(ls[0])):
+                u = union_leg(self.cfg, ls[0][q].s, ls[0][q], ls[1][q])
+                L[q] = union_leg(self.cfg, u.s, u, ls[2][q])
+            ref = sum((1 if a is None else a) * o.to_numpy(legs=L) for a, o in zip(amps, ops))
+            return ("dense", ref, L)
+        return self._do(model, lambda V: self.yastn.add(V[i], V[j], V[k], amplitudes=amps), oracle, "addmany", (i, j, k))
 
     def op_transpose(self, mal, move=False):
         rng = self.rng
@@ -660,10 +683,11 @@ class ProgGen:
         return j
 
     def _diag_for(self, leg):
-        """a diagonal tensor living on (leg.conj(), leg) so that it can act on `leg`"""
+        """a diagonal tensor living on (leg.conj(), leg) so that it can act on `leg`; its dtype is chosen independently of the
+        other operand's (complex diagonal with a real tensor and vice versa)"""
         yastn = self.yastn
         d = yastn.eye(self.cfg, legs=[leg.conj(), leg], isdiag=True)
-        d = tgen.int_fill(self.rng, d, self.cplx, lo=-2, hi=3)
+        d = tgen.int_fill(self.rng, d, self.rng.random() < (0.6 if self.cplx else 0.25), lo=-2, hi=3)
         return d
 
     def op_broadcast(self, mal):
